@@ -97,6 +97,7 @@ func gens() []gen {
 		{"fields", 3, caseFields, []string{"prefork", "transition", "postfork-kawpow", "postfork-sha", "body"}},
 		{"engine", 3, caseEngine, engineCorpus()},
 		{"tmpl", 5, caseTmpl, tmplCorpus()},
+		{"powfilter", 4, casePowFilter, powfilterCorpus()},
 	}
 }
 
